@@ -4,6 +4,7 @@ Property theorems only (helper lemmas are `private`).
 Model: DTML/Batch.lean (`opt`, `window`, `links`, `follow`, `followPrev`).
 -/
 import DTML.Batch
+import DTML.Gen
 import DTML.GenCode
 import DTML.Basic
 set_option linter.unusedVariables false
@@ -18,6 +19,19 @@ theorem gen_opt_is_model (start end_ size orphan : Int) (s : Seq) :
     GenCode.optGen start end_ size orphan s = opt start end_ size orphan s := by
   simp only [GenCode.optGen, opt]
   grind
+
+/-- **The neighbours are computed from the window the way the model says** — the argument texts of every `opt(…)`
+call in `renderwb`, `next_batches` and `previous_batches`, extracted from /repo's source on every run: the window
+itself, then (twice: in the `previous` / `next` forms and in the item loop) the previous batch as
+`opt(0, first + overlap, sz, orphan)` and the next batch as `opt(end + 1 - overlap, 0, sz, orphan)` — these are
+`Batch.links`' two calls — and the same two steps in the batch lists. -/
+theorem gen_opt_calls :
+    Gen.renderwb_optCalls = ["start, end, size, orphan, sequence",
+      "0, first + overlap, sz, orphan, sequence", "end + 1 - overlap, 0, sz, orphan, sequence",
+      "0, first + overlap, sz, orphan, sequence", "end + 1 - overlap, 0, sz, orphan, sequence"] ∧
+    Gen.renderwob_optCalls = [] ∧
+    Gen.next_batches_optCalls = ["end + 1 - overlap, 0, sz, orphan, sequence"] ∧
+    Gen.previous_batches_optCalls = ["0, start - 1 + overlap, sz, orphan, sequence"] := by decide
 
 /-- The displayed window is inside the sequence: `1 ≤ start ≤ end ≤ length`,
 for every parameter tuple (given or absent = 0, negative, oversized). -/
